@@ -16,6 +16,19 @@ fn main() {
     }
     // inner attributes are not allowed in an included file
     let out: String = out.lines().filter(|l| !l.trim_start().starts_with("#![")).map(|l| format!("{}\n", l)).collect();
+    // white-box probes are generated only when the private representation is the one they were written
+    // for; after a refactoring of the internals the check falls back to black-box observation
+    let mut out = out;
+    if src.contains("lock: Mutex<isize>") {
+        out.push_str("pub fn verif_count(s: &Semaphore) -> Option<isize> { Some(*s.lock.lock().unwrap()) }\n");
+    } else {
+        out.push_str("pub fn verif_count(_s: &Semaphore) -> Option<isize> { None }\n");
+    }
+    if src.contains("cvar: Condvar") {
+        out.push_str("pub fn verif_notify(s: &Semaphore, all: bool) { if all { s.cvar.notify_all() } else { s.cvar.notify_one() } }\n");
+    } else {
+        out.push_str("pub fn verif_notify(_s: &Semaphore, _all: bool) {}\n");
+    }
     let dest = Path::new(&std::env::var("OUT_DIR").unwrap()).join("semaphore_shuttle.rs");
     std::fs::write(dest, out).unwrap();
 }
